@@ -64,9 +64,31 @@ CHECKS.update({
         text='Per-class signature soundness and totality: format_match and '
              'complete of the fixed-layout inspectors equal the spec '
              'signature predicate of the stream prefix in every reachable '
-             'state (so they cannot raise), proved for a symbolic stream.',
+             'state (so they cannot raise), proved for a symbolic stream. '
+             'InspectWrapper.formats/format: the full decision table over '
+             'symbolic per-inspector complete/match booleans, finished flag, '
+             'raw allowed or not and every set iteration order; '
+             'InspectWrapper.__init__ honours allowed_formats.',
         note='Trusted: pyvc, z3, A-STATIC.',
         ref='DESIGN.md section 4 C03'),
+    'C06': dict(
+        text='InspectWrapper._process_chunk, read, __next__, _finish, close '
+             'proved against HAVOC inspectors (eat_chunk may raise any '
+             'Exception class or not; complete/format_match arbitrary '
+             'booleans) in an arbitrary wrapper state (any already-errored '
+             'subset, any expected_format, every iteration order of the '
+             'inspector set): errored inspectors are never fed again, live '
+             'ones get the identical chunk object exactly once, failures of '
+             'non-expected formats never escape and are recorded, the '
+             'expected format cuts the stream iff it fails (same exception '
+             'object) or completes without matching (ImageFormatError), and '
+             'read/__next__ return the very object the source returned after '
+             'exactly one source call.',
+        note='Trusted: pyvc, z3, A-STATIC. BaseExceptions that are not '
+             'Exceptions are outside the property. Cross-call monotonicity of '
+             'the errored set is the per-call obligation errored-set-only-'
+             'grows plus induction over calls.',
+        ref='DESIGN.md section 4 C06'),
     'C05': dict(
         text='len(region.data) <= region.length is preserved by both capture '
              'methods for any chunk; every fixed-layout inspector has the '
